@@ -41,7 +41,9 @@ TypeVal(md, nd) ==
      [] t.k = "borrow_link" -> IF HasLink(nd, t.l) THEN TypeOf(md, nd.links[t.l]) ELSE Refused
      [] t.k = "checked" -> IF HasLink(nd, t.l) THEN <<nd.links[t.l]>> ELSE Refused
      [] t.k = "product" -> LET items == IF HasLink(nd, t.l) THEN nd.links[t.l] ELSE <<>> IN
-                           <<-3>> \o [i \in 1..Len(items) |-> LET x == TypeOf(md, items[i]) IN IF Len(x) = 1 THEN x[1] ELSE -1]
+                           \* (an element that is itself a growing sequence has a product type that is no entity: it reads as -9)
+                           <<-3>> \o [i \in 1..Len(items) |-> LET x == TypeOf(md, items[i]) IN
+                                                                 IF x[1] = -3 THEN -9 ELSE IF Len(x) = 1 THEN x[1] ELSE -1]
      [] t.k = "never" -> Refused
      [] OTHER -> NoNotion
 TypeOf(md, id) == IF id \in DOMAIN PoolTypeOf THEN <<PoolTypeOf[id]>>
